@@ -13,6 +13,7 @@ durations realise the classification is decided per contingency by the check (ex
 import Relsad.Model.Relrad
 import Relsad.Lemmas.GraphL
 import Relsad.Props.C06
+import Relsad.Props.C14
 import Relsad.Lemmas.ControlOpenL
 
 namespace Relsad.C07
@@ -187,5 +188,192 @@ theorem outage_has_reason_devices (C : Cfg) (hC : wfB C = true) (hC2 : wfB2 C = 
     · rw [hdl.2] at h2; exact Or.inr (own h2)
     · rw [hdl.2] at h2; exact Or.inl h2
     · exact Or.inr ⟨k, hk, hko, Or.inr ⟨d, hd, hsw, hdo⟩⟩
+
+open Relsad.Control in
+private theorem getD_set_filter_sub (l : List (List Nat)) (n : Nat) (p : Nat → Bool) :
+    ∀ j ∈ (l.set n ((l.getD n []).filter p)).getD n [], j ∈ l.getD n [] := by
+  intro j hj
+  by_cases hn : n < l.length
+  · rw [show (l.set n ((l.getD n []).filter p)).getD n [] = (l.getD n []).filter p by
+      simp [List.getD_eq_getElem?_getD, hn]] at hj
+    exact (List.mem_filter.mp hj).1
+  · rw [List.set_eq_of_length_le (not_lt.mp hn)] at hj; exact hj
+
+open Relsad.Control in
+/-- the reconnecting half of a line check: line status, timers and breakers untouched, and nothing new is listed as failed -/
+private theorem reco_sub (C : Cfg) (n : Nat) (ks : List Nat) (s : St) :
+    (ks.foldl (recoStep C n) s).failed = s.failed ∧ (ks.foldl (recoStep C n) s).timer = s.timer ∧
+    (ks.foldl (recoStep C n) s).cbOpen = s.cbOpen ∧
+    ∀ j ∈ (ks.foldl (recoStep C n) s).failedSecs.getD n [], j ∈ s.failedSecs.getD n [] := by
+  induction ks generalizing s with
+  | nil => exact ⟨rfl, rfl, rfl, fun _ h => h⟩
+  | cons a as ih =>
+    simp only [List.foldl_cons]
+    obtain ⟨e1, _, _, e4⟩ := recoStep_fields C n s a
+    have ec : (recoStep C n s a).cbOpen = s.cbOpen := by
+      unfold recoStep; simp only; split_ifs
+      · rfl
+      · exact secConnectManually_cbOpen C s a
+    have hsub : ∀ j ∈ (recoStep C n s a).failedSecs.getD n [], j ∈ s.failedSecs.getD n [] := by
+      rw [e4]; split_ifs
+      · exact fun _ h => h
+      · exact getD_set_filter_sub _ _ _
+    obtain ⟨r1, r2, r3, r4⟩ := ih (recoStep C n s a)
+    exact ⟨r1.trans e1, r2.trans (tm_recoStep C n s a).1, r3.trans ec, fun j hj => hsub j (r4 j hj)⟩
+
+open Relsad.Control in
+private theorem childFold_fields (C : Cfg) (n : Nat) (l : List Nat) (a : St) :
+    let r := l.foldl (fun s m => if gb s.cbOpen (C.nets.getD m default).cb then { s with pTimer := s.pTimer.set m (gr s.timer n) } else s) a
+    r.failed = a.failed ∧ r.cbOpen = a.cbOpen ∧ r.timer = a.timer ∧ r.failedSecs = a.failedSecs := by
+  induction l generalizing a with
+  | nil => exact ⟨rfl, rfl, rfl, rfl⟩
+  | cons m ms ih =>
+    simp only [List.foldl_cons]
+    split_ifs
+    · exact ih _
+    · exact ih _
+
+open Relsad.Control in
+private theorem failed_secDisconnect_foldl (C : Cfg) (ks : List Nat) (s : St) : (ks.foldl (secDisconnect C) s).failed = s.failed := by
+  induction ks generalizing s with
+  | nil => rfl
+  | cons a as ih => simp only [List.foldl_cons]; rw [ih, secDisconnect_failed]
+
+open Relsad.Control in
+/-- **Sectioning time only**: the feeder's breaker recloses in the very pass of the controller's loop
+(`DistributionController.run_manual_control_loop`) in which the sectioning time runs out, provided the fault has been
+sectioned off: the breaker is open, the timer runs out in this pass, every section that is still connected is free of
+failed lines (the failed ones are out of service and listed), the breaker's own line is healthy and lies in no listed
+section.  Everything on the feed side of the open disconnectors is then back after the sectioning time, which is what
+the classification `sectioningOnly` promises; with `C16.manual_loop_waits_for_sectioning_time` (not earlier) this
+fixes the pass exactly, for every state and step. -/
+theorem feeder_recloses_when_time_runs_out (C : Cfg) (s : St) (n : Nat) (dt : ℚ)
+    (hn : n < s.timer.length) (hcb : (C.nets.getD n default).cb < s.cbOpen.length)
+    (hopen : gb s.cbOpen (C.nets.getD n default).cb = true)
+    (hmode : (C.nets.getD n default).mode ≠ some .survival)
+    (ht : tick (gr s.timer n) dt ≤ 0)
+    (hq : ∀ k ∈ (netOf C n).secs, gb s.secConn k = true → anyFailed s (secOf C k).lines = false)
+    (hline : gb s.failed (C.nets.getD n default).connLine = false)
+    (hsec : ∀ k ∈ s.failedSecs.getD n [], (C.secs.getD k default).lines.contains (C.nets.getD n default).connLine = false) :
+    gb (distLoop C s n dt).cbOpen (C.nets.getD n default).cb = false := by
+  have hhold : ∀ x : St, survivalHold C x n = false := by
+    intro x; unfold survivalHold; split
+    · rename_i h _; exact absurd h hmode
+    · rfl
+  have key : ∀ x : St, x.failed = s.failed → x.cbOpen = s.cbOpen → gr x.timer n ≤ 0 →
+      (∀ j ∈ x.failedSecs.getD n [], j ∈ s.failedSecs.getD n []) →
+      gb (checkBreakerManually C x n).cbOpen (C.nets.getD n default).cb = false := by
+    intro x hf hc htm hl
+    apply C14.support_reconnects C x n (by rw [hc]; exact hopen) (by rw [hc]; exact hcb) (hhold x) htm
+    · rw [failed_secDisconnect_foldl, hf]; exact hline
+    · rw [List.any_eq_false]
+      intro k hk; rw [hsec k (hl k hk)]; simp
+  unfold distLoop
+  simp only
+  have hg : gr (s.timer.set n (tick (gr s.timer n) dt)) n = tick (gr s.timer n) dt := gr_set_self _ _ _ hn
+  simp only [hg, hopen, ht, decide_true, Bool.and_self, if_true]
+  split_ifs with hck
+  · set s2 : St := { s with timer := s.timer.set n (tick (gr s.timer n) dt), check := s.check.set n true } with hs2
+    have h1 : ((netOf C n).secs.filter (fun k => gb s2.secConn k)).foldl (flagStep C n) s2 = s2 := by
+      apply foldl_fixed
+      intro k hk
+      have hk' := List.mem_filter.mp hk
+      have : anyFailed s2 (secOf C k).lines = false := hq k hk'.1 hk'.2
+      unfold flagStep
+      simp only
+      rw [show C.secs.getD k default = secOf C k from rfl, this]
+      simp
+    obtain ⟨r1, r2, r3, r4⟩ := reco_sub C n ((netOf C n).secs.filter (fun k => !gb s2.secConn k)) s2
+    have hcl : checkLinesManually C s2 n = ((netOf C n).secs.filter (fun k => !gb s2.secConn k)).foldl (recoStep C n) s2 := by
+      rw [checkLinesManually_eq, h1]
+    obtain ⟨c1, c2, c3, c4⟩ := childFold_fields C n (C.nets.getD n default).children (checkLinesManually C s2 n)
+    apply key
+    · show (List.foldl _ (checkLinesManually C s2 n) _).failed = s.failed
+      rw [c1, hcl, r1]
+    · show (List.foldl _ (checkLinesManually C s2 n) _).cbOpen = s.cbOpen
+      rw [c2, hcl, r3]
+    · show gr (List.foldl _ (checkLinesManually C s2 n) _).timer n ≤ 0
+      rw [c3, hcl, r2]; show gr (s.timer.set n _) n ≤ 0; rw [hg]; exact ht
+    · show ∀ j ∈ (List.foldl _ (checkLinesManually C s2 n) _).failedSecs.getD n [], _
+      rw [c4, hcl]; exact r4
+  · apply key
+    · rfl
+    · rfl
+    · show gr (s.timer.set n _) n ≤ 0; rw [hg]; exact ht
+    · exact fun _ h => h
+
+open Relsad.Control in
+/-- **… and under ICT-based control** (`DistributionController.run_control_loop`), whatever the controller reaches. -/
+theorem feeder_recloses_when_time_runs_out_auto (C : Cfg) (s : St) (n : Nat) (dt : ℚ) (cm : Comm)
+    (hn : n < s.timer.length) (hcb : (C.nets.getD n default).cb < s.cbOpen.length)
+    (hopen : gb s.cbOpen (C.nets.getD n default).cb = true)
+    (hmode : (C.nets.getD n default).mode ≠ some .survival)
+    (ht : tick (gr s.timer n) dt ≤ 0)
+    (hq : ∀ k ∈ (netOf C n).secs, gb s.secConn k = true → anyFailed s (secOf C k).lines = false)
+    (hline : gb s.failed (C.nets.getD n default).connLine = false)
+    (hsec : ∀ k ∈ s.failedSecs.getD n [], (C.secs.getD k default).lines.contains (C.nets.getD n default).connLine = false) :
+    gb (distLoopA C s n dt cm).cbOpen (C.nets.getD n default).cb = false := by
+  have hhold : ∀ x : St, survivalHold C x n = false := by
+    intro x; unfold survivalHold; split
+    · rename_i h _; exact absurd h hmode
+    · rfl
+  have key : ∀ x : St, x.failed = s.failed → x.cbOpen = s.cbOpen → gr x.timer n ≤ 0 →
+      (∀ j ∈ x.failedSecs.getD n [], j ∈ s.failedSecs.getD n []) →
+      gb (checkBreakerManually C x n).cbOpen (C.nets.getD n default).cb = false := by
+    intro x hf hc htm hl
+    apply C14.support_reconnects C x n (by rw [hc]; exact hopen) (by rw [hc]; exact hcb) (hhold x) htm
+    · rw [failed_secDisconnect_foldl, hf]; exact hline
+    · rw [List.any_eq_false]
+      intro k hk; rw [hsec k (hl k hk)]; simp
+  unfold distLoopA
+  simp only
+  have hg : gr (s.timer.set n (tick (gr s.timer n) dt)) n = tick (gr s.timer n) dt := gr_set_self _ _ _ hn
+  simp only [hg, hopen, ht, decide_true, Bool.and_self, if_true]
+  split_ifs with hck
+  · set s2 : St := { s with timer := s.timer.set n (tick (gr s.timer n) dt), check := s.check.set n true } with hs2
+    have h1 : ((netOf C n).secs.filter (fun k => gb s2.secConn k)).foldl (flagStepA C n cm) s2 = s2 := by
+      apply foldl_fixed
+      intro k hk
+      have hk' := List.mem_filter.mp hk
+      have : anyFailed s2 (secOf C k).lines = false := hq k hk'.1 hk'.2
+      unfold flagStepA
+      simp only
+      rw [show C.secs.getD k default = secOf C k from rfl, this]
+      simp
+    obtain ⟨r1, r2, r3, r4⟩ := reco_sub C n ((netOf C n).secs.filter (fun k => !gb s2.secConn k)) s2
+    have hcl : checkSensors C s2 n cm = ((netOf C n).secs.filter (fun k => !gb s2.secConn k)).foldl (recoStep C n) s2 := by
+      rw [checkSensors_eq, h1]
+    obtain ⟨c1, c2, c3, c4⟩ := childFold_fields C n (C.nets.getD n default).children (checkSensors C s2 n cm)
+    apply key
+    · show (List.foldl _ (checkSensors C s2 n cm) _).failed = s.failed
+      rw [c1, hcl, r1]
+    · show (List.foldl _ (checkSensors C s2 n cm) _).cbOpen = s.cbOpen
+      rw [c2, hcl, r3]
+    · show gr (List.foldl _ (checkSensors C s2 n cm) _).timer n ≤ 0
+      rw [c3, hcl, r2]; show gr (s.timer.set n _) n ≤ 0; rw [hg]; exact ht
+    · show ∀ j ∈ (List.foldl _ (checkSensors C s2 n cm) _).failedSecs.getD n [], _
+      rw [c4, hcl]; exact r4
+  · apply key
+    · rfl
+    · rfl
+    · show gr (s.timer.set n _) n ≤ 0; rw [hg]; exact ht
+    · exact fun _ h => h
+
+open Relsad.Control in
+/-- Non-vacuity: the two-section feeder one pass after a fault on L1 meets every hypothesis (breaker open, 1 h left with
+1 h steps, section 1 out of service and listed, section 0 clean), and the loop closes the breaker. -/
+example :
+    let C : Cfg := { lines := [⟨0, some 0, [], 0⟩, ⟨0, none, [0], 1⟩], disconLine := [1], cbLine := [0],
+                     secs := [⟨[0], [.breaker 0, .discon 0]⟩, ⟨[1], [.discon 0]⟩], nets := [⟨0, 0, [0, 1], [0, 1], [], none, none⟩], T := 1 }
+    let s := step C (lineFail C (St.init C) 1 2) 1
+    0 < s.timer.length ∧ (C.nets.getD 0 default).cb < s.cbOpen.length ∧ gb s.cbOpen (C.nets.getD 0 default).cb = true ∧
+    (C.nets.getD 0 default).mode ≠ some .survival ∧ tick (gr s.timer 0) 1 ≤ 0 ∧
+    (∀ k ∈ (netOf C 0).secs, gb s.secConn k = true → anyFailed s (secOf C k).lines = false) ∧
+    gb s.failed (C.nets.getD 0 default).connLine = false ∧ s.failedSecs.getD 0 [] = [1] ∧
+    (∀ k ∈ s.failedSecs.getD 0 [], (C.secs.getD k default).lines.contains (C.nets.getD 0 default).connLine = false) ∧
+    gb (distLoop C s 0 1).cbOpen 0 = false ∧ gb (distLoop C s 0 1).failed 1 = true := by
+  intro C s
+  refine ⟨by decide +kernel, by decide +kernel, by decide +kernel, by decide +kernel, by decide +kernel, by decide +kernel,
+    by decide +kernel, by decide +kernel, by decide +kernel, by decide +kernel, by decide +kernel⟩
 
 end Relsad.C07
